@@ -6,6 +6,7 @@ import (
 	"go/token"
 	"go/types"
 	"math/big"
+	"strings"
 
 	"golang.org/x/tools/go/ssa"
 )
@@ -33,7 +34,9 @@ func (x *Exec) globalPtr(g *ssa.Global) PtrV {
 		id = len(x.globals) + 1
 		x.globals[g] = id
 	}
-	return x.PtrFromTerm(BVInt(int64(id), 32), g.Type())
+	p := x.PtrFromTerm(BVInt(int64(id), 32), g.Type())
+	p.NonNil = true
+	return p
 }
 
 const globalRefLimit = 4096 // refs below this are reserved for package-level variables
@@ -186,7 +189,7 @@ func (x *Exec) execInstr(fr *Frame, st *State, ins ssa.Instruction) error {
 		if !ok {
 			return fmt.Errorf("FieldAddr on %T", v)
 		}
-		if len(p.Path) == 0 {
+		if len(p.Path) == 0 && !p.NonNil {
 			x.obligation(fr, ins, "nil", st.PC, Not(Eq(p.Base, BVInt(0, 32))), "nil pointer dereference")
 			x.C.Assume(Implies(st.PC, Not(Eq(p.Base, BVInt(0, 32)))), "continuing past nil check")
 		}
@@ -214,7 +217,7 @@ func (x *Exec) execInstr(fr *Frame, st *State, ins ssa.Instruction) error {
 		if err != nil {
 			return err
 		}
-		if len(p.Path) == 0 {
+		if len(p.Path) == 0 && !p.NonNil {
 			x.obligation(fr, ins, "nil", st.PC, Not(Eq(p.Base, BVInt(0, 32))), "nil pointer store")
 		}
 		if err := x.Store(st, p, v); err != nil {
@@ -569,12 +572,19 @@ func (x *Exec) unop(fr *Frame, st *State, ins *ssa.UnOp) error {
 		if !ok {
 			return fmt.Errorf("deref of %T", v)
 		}
-		if len(p.Path) == 0 {
+		if len(p.Path) == 0 && !p.NonNil {
 			x.obligation(fr, ins, "nil", st.PC, Not(Eq(p.Base, BVInt(0, 32))), "nil pointer dereference")
 		}
 		lv, err := x.Load(st, p)
 		if err != nil {
 			return unsupported("%v", err)
+		}
+		if g, ok := ins.X.(*ssa.Global); ok {
+			// sentinel error variables (io.EOF, ErrXxx = errors.New(...)) are never nil
+			if tv, ok := lv.(TV); ok && tv.T.Sort == SIface && (strings.HasPrefix(g.Name(), "Err") || g.Name() == "EOF") {
+				x.C.Assume(Not(Eq(tv.T, x.C.zeroOfSort(SIface, nil))), "sentinel error variable "+g.String()+" is non-nil")
+				x.C.trusted["sentinel error variables (ErrXxx, io.EOF) are non-nil and never reassigned"] = true
+			}
 		}
 		fr.Env[ins] = lv
 		return nil
@@ -797,7 +807,7 @@ func (x *Exec) indexAddr(fr *Frame, st *State, ins *ssa.IndexAddr) error {
 	case *types.Pointer:
 		arr := u.Elem().Underlying().(*types.Array)
 		p := bv.(PtrV)
-		if len(p.Path) == 0 {
+		if len(p.Path) == 0 && !p.NonNil {
 			x.obligation(fr, ins, "nil", st.PC, Not(Eq(p.Base, BVInt(0, 32))), "nil array pointer")
 		}
 		x.obligation(fr, ins, "idx", st.PC, bvCmp("bvult", idx, BVInt(arr.Len(), 64)), "array index out of range")
@@ -908,7 +918,7 @@ func (x *Exec) sliceOp(fr *Frame, st *State, ins *ssa.Slice) error {
 			base = x.AllocBacking(st, arr.Elem(), &content)
 			x.C.Note("slice of an array embedded in a struct is modelled by a snapshot copy (writes through it unsupported)")
 			x.snapRefs[base.S] = true
-		} else if len(p.Path) == 0 {
+		} else if len(p.Path) == 0 && !p.NonNil {
 			x.obligation(fr, ins, "nil", st.PC, Not(Eq(p.Base, BVInt(0, 32))), "slicing nil array pointer")
 		}
 		ns := MkSlice(base, bvBin("bvadd", off, lo), bvBin("bvsub", hi, lo), bvBin("bvsub", mx, lo))
